@@ -129,6 +129,16 @@ func (e *Eval) lookupIdent(name string) (tv, bool) {
 			}
 		}
 		if len(found) == 0 {
+			// captured variable of a closure verified on its own
+			for i, fv := range e.fr.fn.FreeVars {
+				if fv.Name() == base && i < len(e.fr.binds) {
+					if p, ok := e.fr.binds[i].(*PtrV); ok && p.Kind == PCell {
+						if v, ok := e.st.cells[p.Cell]; ok {
+							return tv{v, p.Cell.Typ}, true
+						}
+					}
+				}
+			}
 			return tv{}, false
 		}
 		var pick *ssa.Alloc
@@ -385,6 +395,13 @@ func (e *Eval) evalSel(n *ESel) tv {
 					}
 					if v, ok := obj.(*types.Var); ok {
 						key := "G_" + sanitize(p.Name()+"_"+n.Name)
+						// sentinel errors: the same distinct non-nil constants the executor uses
+						if (strings.HasPrefix(n.Name, "Err") || strings.HasPrefix(n.Name, "err") || n.Name == "EOF" || n.Name == "Canceled" || n.Name == "DeadlineExceeded") && !vc.decl[key+"$sentinel"] && types.IsInterface(v.Type()) && v.Type().String() == "error" {
+							vc.decl[key+"$sentinel"] = true
+							g0 := vc.initGlob(key, SInt)
+							vc.sigs = append(vc.sigs, fmt.Sprintf("(assert (= %s %d))", g0.S, 900000+vc.eng.addrKind(key)))
+							vc.assume("sentinel error variables (Err*) are non-nil, pairwise distinct and never reassigned before function entry")
+						}
 						if s, ok := leafSort(v.Type()); ok {
 							return tv{vc.getGlob(e.st, key, s), v.Type()}
 						}
